@@ -27,7 +27,24 @@ evaluated before any element is assigned, are kept even when the sides overlap")
  R5  ``flatten_arrays`` drops the subscript list ("whole array") only when every
      subscript is the full range without stride: the predicate is evaluated over
      the abstract subscripts {scalar, lower/upper/step present or absent}.
-Not decided: index arithmetic of shifts, explicit-dimension insertion / removal,
+ R6  the shifted index is ``i - a + c``: the expression built by
+     ``_compute_shifted_index`` for LHS range ``a:b``, RHS range ``c:d`` and loop
+     variable ``i`` is compared, as a linear normal form over the constructor
+     tree (``Sum`` / ``Product((-1, x))`` / ``simplify``), with ``loop_var -
+     lhs_range.lower + rhs_range.lower`` -- a symbolic identity; a sign slip or
+     swapped ranges changes the normal form.
+ R7  a rebuilt section keeps every component of the section it replaces: in
+     ``loki/transformations/array_indexing/array_indices.py``, a ``RangeIndex``
+     whose first component derives from ``X.start`` / ``X.lower`` of a section
+     ``X`` has a second component derived from ``X.stop`` / ``X.upper`` and the
+     third component ``X.step`` of the *same* ``X`` (not of the declared
+     dimension, whose step is always absent), and each component is guarded
+     against absence on that same ``X``.
+ R8  shifting to lower bound 1 is ``x - lower + 1``: in
+     ``normalize_array_shape_and_access`` the new start / stop / scalar index are,
+     as linear forms, ``<old> - <declared lower> + 1`` and the new extent is
+     ``upper - lower + 1``.
+Not decided: the other index arithmetic (strided shifts), explicit-dimension insertion / removal,
 zero-based shifting, flattening (all value-level).
 """
 import ast
@@ -160,6 +177,173 @@ def run(ctx):
     (ctx.judge('R3', 'statement rewritten before wrapping') if ok else
      ctx.violation('R3', f'{CLS}.visit_Assignment:order', va.where, 'the statement is wrapped in loops before its sections are replaced'))
     run_r45(ctx, T)
+    run_r6(ctx, T)
+    run_r78(ctx)
+
+
+def run_r6(ctx, T):
+    from sa.linform import lin_sym, same, show, NotLinear
+    ctx.rule('R6', '_compute_shifted_index returns (as a linear form) loop_var - lhs_range.lower + rhs_range.lower')
+    f = T.function('_compute_shifted_index')
+    if f is None:
+        raise AnalysisError(f'{CLS}._compute_shifted_index vanished')
+    pars = [a.arg for a in f.node.args.args if a.arg not in ('self', 'cls')]
+    if len(pars) != 3:
+        raise AnalysisError('_compute_shifted_index: expected (loop_var, lhs_range, rhs_range)')
+    iv, lr, rr = pars
+    rets = [r for r in ast.walk(f.node) if isinstance(r, ast.Return) and r.value is not None]
+    if len(rets) != 1:
+        raise AnalysisError('_compute_shifted_index: expected a single return')
+    e = rets[0].value
+    # substitute single-definition locals
+    for _ in range(4):
+        for a in ast.walk(f.node):
+            if isinstance(a, ast.Assign) and len(a.targets) == 1 and isinstance(a.targets[0], ast.Name):
+                nm = a.targets[0].id
+
+                class S(ast.NodeTransformer):
+                    def visit_Name(self, n, nm=nm, v=a.value):
+                        return v if n.id == nm and isinstance(n.ctx, ast.Load) else n
+                e = S().visit(e)
+    try:
+        got = lin_sym(e)
+    except NotLinear as u:
+        raise AnalysisError(f'_compute_shifted_index: `{u}` is outside the linear fragment')
+    want = {iv: 1, f'{lr}.lower': -1, f'{rr}.lower': 1}
+    # .start is an alias of .lower on ranges
+    got = {(k.replace('.start', '.lower') if isinstance(k, str) else k): v for k, v in got.items()}
+    if same(got, want):
+        ctx.judge('R6', 'shifted index == loop_var - lhs.lower + rhs.lower', facts={'normal_form': show(got)})
+    else:
+        ctx.violation('R6', f'{CLS}._compute_shifted_index:formula', f'{f.module.relpath}:{rets[0].lineno}',
+                      f'the index substituted for a shifted section is `{show(got)}`, not `{show(want)}`: with b(a:..) = x(c:..) the element '
+                      f'read for loop index i must be x(i - a + c)')
+
+
+def run_r78(ctx):
+    from sa.linform import lin_py, same, show, NotLinear
+    m = ctx.model
+    AI = 'loki/transformations/array_indexing/array_indices.py'
+    mod = m.module_by_path(AI)
+    ctx.rule('R7', 'array_indices.py: RangeIndex((f(X.start), g(X.stop), X.step)) -- all three components come from the same section X')
+    ctx.rule('R8', 'normalize_array_shape_and_access: new index == old - declared lower + 1; new extent == upper - lower + 1 (linear forms)')
+    n7 = 0
+    for fn in [x for x in ast.walk(mod.tree) if isinstance(x, ast.FunctionDef)]:
+        for c_ in ast.walk(fn):
+            if not (isinstance(c_, ast.Call) and X.call_name_of(c_) == 'RangeIndex' and c_.args and isinstance(c_.args[0], ast.Tuple)):
+                continue
+            elts = c_.args[0].elts
+
+            # definitions that reach the construction: assignments earlier in the same block (flow-sensitive enough for
+            # branch-local temporaries such as `start`, which other branches define differently)
+            blk = None
+            for b in ast.walk(fn):
+                for fld in ('body', 'orelse', 'finalbody'):
+                    lst = getattr(b, fld, None)
+                    if isinstance(lst, list):
+                        for k, st in enumerate(lst):
+                            if isinstance(st, ast.stmt) and any(x is c_ for x in ast.walk(st)) and not any(
+                                    isinstance(st2, (ast.If, ast.For, ast.While, ast.With)) and any(x is c_ for x in ast.walk(st2)) and st2 is not st
+                                    for st2 in ast.walk(st) if isinstance(st2, ast.stmt)):
+                                blk = lst[:k]
+            local_defs = [a for a in (blk or []) if isinstance(a, ast.Assign)]
+
+            def resolved(e):
+                out = [e]
+                if isinstance(e, ast.Name):
+                    out += [a.value for a in local_defs if any(isinstance(t, ast.Name) and t.id == e.id for t in a.targets)]
+                return out
+
+            def sources(e, attrs):
+                # section expressions X such that X.<attr> occurs in (a definition of) e, outside of `is None` guards
+                out = set()
+                for d in resolved(e):
+                    body = d.body if isinstance(d, ast.IfExp) else d
+                    for n in ast.walk(body):
+                        if isinstance(n, ast.Attribute) and n.attr in attrs:
+                            out.add(ast.unparse(n.value))
+                return out
+            first = sources(elts[0], ('start', 'lower'))
+            if not first:
+                continue                     # a fresh range (shape extent, full range), not a rebuilt section
+            n7 += 1
+            inst = f'{fn.name}:RangeIndex({", ".join(ast.unparse(e) for e in elts)})'
+            why = None
+            # alias resolution: `dim = v.dimensions[i]`
+            def canon(x):
+                for a in ast.walk(fn):
+                    if isinstance(a, ast.Assign) and len(a.targets) == 1 and isinstance(a.targets[0], ast.Name) and a.targets[0].id == x:
+                        return ast.unparse(a.value)
+                return x
+            # the section is the source shared by start and stop (the other source of the start is the declared dimension)
+            second = sources(elts[1], ('stop', 'upper')) if len(elts) > 1 else set()
+            sect = {canon(x) for x in first} & {canon(x) for x in second}
+            if not sect:
+                why = f'start comes from {sorted(first)} but stop from {sorted(second)}'
+            elif len(elts) < 3:
+                why = 'the stride of the section is not carried over (two-component range)'
+            else:
+                third = {canon(x) for x in sources(elts[2], ('step',))}
+                if not (third & sect):
+                    why = f'the stride is taken from {sorted(third) or ast.unparse(elts[2])}, not from the section {sorted(sect)}'
+            if why is None:
+                # absence guards on the same section
+                for e in elts[:2]:
+                    for d in resolved(e):
+                        if isinstance(d, ast.IfExp):
+                            g = {canon(ast.unparse(n.value)) for n in ast.walk(d.test) if isinstance(n, ast.Attribute)}
+                            if not (g & sect):
+                                why = f'`{ast.unparse(d)[:70]}` guards absence on {sorted(g)}, not on the section {sorted(sect)}'
+            if why:
+                ctx.violation('R7', f'{fn.name}:section-components', f'{AI}:{c_.lineno}',
+                              f'`{ast.unparse(c_)[:90]}`: {why} -- e.g. a(0:10:2) of a(0:10) must become a(1:11:2), not a(1:11)', instance=inst)
+            else:
+                ctx.judge('R7', inst, facts={'section': sorted(sect)})
+    ctx.floor('R7', 'rebuilt sections in array_indices.py', n7, 2)
+    # ---- R8
+    nz = m.get_function(AI, 'normalize_array_shape_and_access')
+    shifts = [a for a in ast.walk(nz.node) if isinstance(a, ast.Assign) and isinstance(a.targets[0], ast.Name)
+              and any(isinstance(c, ast.Call) and X.call_name_of(c) == 'simplify' for c in ast.walk(a.value))]
+    n8 = 0
+
+    def canon_e(e):
+        class S(ast.NodeTransformer):
+            def visit_Name(self, n):
+                for a in ast.walk(nz.node):
+                    if isinstance(a, ast.Assign) and len(a.targets) == 1 and isinstance(a.targets[0], ast.Name) and a.targets[0].id == n.id \
+                            and isinstance(a.value, (ast.Subscript, ast.Attribute)):
+                        return a.value
+                return n
+        import copy
+        return S().visit(copy.deepcopy(e))
+    decl = None
+    for l in ast.walk(nz.node):
+        if isinstance(l, ast.For) and 'enumerate' in ast.unparse(l.iter) and '.shape' in ast.unparse(l.iter) and isinstance(l.target, ast.Tuple):
+            decl = l.target.elts[1].id
+    if decl is None:
+        raise AnalysisError('normalize_array_shape_and_access: loop over the declared dimensions not found')
+    for c in ast.walk(nz.node):
+        if isinstance(c, ast.Call) and X.call_name_of(c) == 'simplify' and len(c.args) == 1:
+            e = canon_e(c.args[0])
+            try:
+                got = lin_py(e)
+            except NotLinear:
+                continue
+            got = {(k.replace('.start', '.lower').replace('.stop', '.upper') if isinstance(k, str) else k): v for k, v in got.items()}
+            n8 += 1
+            olds = [k for k, v in got.items() if k != 1 and v == 1]
+            lows = [k for k, v in got.items() if k != 1 and v == -1]
+            ok = got.get(1, 0) == 1 and len(olds) == 1 and len(lows) == 1 and lows[0].endswith('.lower') and lows[0].split('.')[0] == decl
+            if ok and olds[0].startswith(f'{decl}.'):
+                ok = olds[0] == f'{decl}.upper'              # extent: upper - lower + 1
+            inst = f'normalize_array_shape_and_access:{show(got)}'
+            if ok:
+                ctx.judge('R8', inst)
+            else:
+                ctx.violation('R8', 'normalize_array_shape_and_access:shift-formula', f'{AI}:{c.lineno}',
+                              f'`{ast.unparse(c)}` is `{show(got)}`: shifting an index of a dimension declared lower:upper to lower bound 1 is '
+                              f'`<old> - {decl}.lower + 1`, its extent `{decl}.upper - {decl}.lower + 1`', instance=inst)
+    ctx.floor('R8', 'shift / extent formulas', n8, 5)
 
 
 class _AbsRange:
@@ -266,6 +450,19 @@ def run_r45(ctx, T):
 
 
 MUTANTS = [
+    Mutant('normalised-section-loses-stride', 'loki/transformations/array_indexing/array_indices.py',
+           "                        new_dims += [sym.RangeIndex((start, stop, dim.step))]", "                        new_dims += [sym.RangeIndex((start, stop, d.step))]",
+           expect=('R7', 'section-components')),
+    Mutant('normalised-stop-off-by-one', 'loki/transformations/array_indexing/array_indices.py',
+           "stop = simplify(dim.stop - d.start + 1) if dim.stop is not None else None", "stop = simplify(dim.stop - d.start) if dim.stop is not None else None",
+           expect=('R8', 'shift-formula')),
+    Mutant('extent-without-plus-one', 'loki/transformations/array_indexing/array_indices.py',
+           "            new_shape = [sym.RangeIndex((1, simplify(d.upper - d.lower + 1)))", "            new_shape = [sym.RangeIndex((1, simplify(d.upper - d.lower)))",
+           expect=('R8', 'shift-formula')),
+    Mutant('shift-sign-slip', FILE, "return simplify(sym.Sum((loop_var, sym.Product((-1, lhs_range.lower)), rhs_range.lower)))",
+           "return simplify(sym.Sum((loop_var, lhs_range.lower, sym.Product((-1, rhs_range.lower)))))", expect=('R6', 'formula')),
+    Mutant('neutral-shift-reordered', FILE, "return simplify(sym.Sum((loop_var, sym.Product((-1, lhs_range.lower)), rhs_range.lower)))",
+           "offset = sym.Sum((rhs_range.lower, sym.Product((sym.IntLiteral(-1), lhs_range.lower))))\n        return simplify(sym.Sum((offset, loop_var)))", expect=None),
     Mutant('collision-test-on-values', FILE, "                    if ivar in index_range_map:", "                    if dim in index_range_map.values():",
            expect=('R4', 'index-collision-unchecked')),
     Mutant('neutral-collision-test-on-keys', FILE, "                    if ivar in index_range_map:", "                    if ivar in index_range_map.keys():",
